@@ -772,3 +772,28 @@ def table_equals(tt, fn):
         if res != exp:
             return False, 'for %s the code yields %s, the reference %s' % ({k: v for k, v in a.items() if v is not None}, res, exp)
     return True, '%d rows' % len(table)
+
+
+def direct_field(body, operand, max_hops=4):
+    """If `operand` is (a copy of) a direct read of a struct field, return (field name, owner ADT, negated?)"""
+    neg = False
+    op = operand
+    for _ in range(max_hops):
+        p = op_place(op)
+        if p is None:
+            return None
+        fs = [e for e in p[1] if isinstance(e, list) and e[0] == 'F']
+        if fs:
+            return fs[-1][2], (fs[-1][3] if len(fs[-1]) > 3 else ''), neg
+        defs = [d for d in body.defs().get(p[0], []) if d[2] == 'assign']
+        if len(defs) != 1:
+            return None
+        rv = defs[0][3]['rv']
+        if rv['k'] == 'use':
+            op = rv['op']
+        elif rv['k'] == 'un' and rv['op'] == 'Not':
+            neg = not neg
+            op = rv['a']
+        else:
+            return None
+    return None
